@@ -137,7 +137,7 @@ fn send(mech: usize, sig: i32) -> Option<i32> {
                 }
                 // give the kernel's SIGCHLD a moment (it is synchronous with the state change, but be safe)
                 let need = if mech == 7 { 2 } else { 1 };
-                for _ in 0..200 {
+                for _ in 0..5000 {
                     if RAW[4].load(Ordering::SeqCst) >= need {
                         break;
                     }
@@ -151,7 +151,7 @@ fn send(mech: usize, sig: i32) -> Option<i32> {
             8 => {
                 let it = libc::itimerval { it_interval: libc::timeval { tv_sec: 0, tv_usec: 0 }, it_value: libc::timeval { tv_sec: 0, tv_usec: 2000 } };
                 setitimer(0, &it, std::ptr::null_mut());
-                for _ in 0..500 {
+                for _ in 0..5000 {
                     if RAW[4].load(Ordering::SeqCst) > 0 {
                         break;
                     }
@@ -167,7 +167,7 @@ fn send(mech: usize, sig: i32) -> Option<i32> {
                 libc::timer_create(libc::CLOCK_MONOTONIC, &mut sev, &mut t);
                 let its = libc::itimerspec { it_interval: libc::timespec { tv_sec: 0, tv_nsec: 0 }, it_value: libc::timespec { tv_sec: 0, tv_nsec: 2_000_000 } };
                 libc::timer_settime(t, 0, &its, std::ptr::null_mut());
-                for _ in 0..500 {
+                for _ in 0..5000 {
                     if RAW[4].load(Ordering::SeqCst) > 0 {
                         break;
                     }
@@ -281,7 +281,7 @@ pub fn run(tier: Tier) -> BResult {
     }
     let ncells = cells.len();
     let cells2 = cells.clone();
-    let probes = run_cells(ncells + 1, 12, Duration::from_secs(10), move |i, e| {
+    let probes = run_cells(ncells + 1, 12, Duration::from_secs(40), move |i, e| {
         if i == ncells {
             synthetic(e)
         } else {
